@@ -180,9 +180,9 @@ func isIface(t types.Type) bool {
 }
 
 var (
-	reByte = regexp.MustCompile(`\bbyte\b`)
-	reRune = regexp.MustCompile(`\brune\b`)
-	reAny  = regexp.MustCompile(`\bany\b`)
+	reByte       = regexp.MustCompile(`\bbyte\b`)
+	reRune       = regexp.MustCompile(`\brune\b`)
+	reAny        = regexp.MustCompile(`\bany\b`)
 	typeKeyCache sync.Map
 )
 
